@@ -502,7 +502,7 @@ func processContractLines(cf *ContractFile, lines []string, lnos []int) error {
 			// matching callee must make this function return a non-nil error
 			c.Kind = "propagates"
 			c.Expr = rest
-		case "nopanic", "pure", "trusted", "nonil", "fparith":
+		case "nopanic", "pure", "trusted", "nonil", "fparith", "noautoinv":
 			c.Kind = word
 			c.Expr = rest
 		case "effects":
